@@ -669,7 +669,7 @@ Lemma crossing_lat_on_line sg (lat0 lon0 lat1 lon1 : R) :
   let lon_cross := if (sg =? -1)%Z then @pi RNum else - @pi RNum in
   let lon_end := if (sg =? -1)%Z then lon1 + 2 * @pi RNum else lon1 - 2 * @pi RNum in
   lon_end <> lon0 ->
-  (@crossing_lat RNum true sg (lat0, lon0) (lat1, lon1) - lat0) * (lon_end - lon0)
+  (@crossing_lat RNum true false sg (lat0, lon0) (lat1, lon1) - lat0) * (lon_end - lon0)
   = (lon_cross - lon0) * (lat1 - lat0).
 Proof.
   intros lon_cross lon_end Hne. unfold crossing_lat. subst lon_cross lon_end.
@@ -685,7 +685,7 @@ Lemma crossing_lat_as_coded_refuted :
     let lon_cross := if (sg =? -1)%Z then @pi RNum else - @pi RNum in
     let lon_end := if (sg =? -1)%Z then lon1 + 2 * @pi RNum else lon1 - 2 * @pi RNum in
     lon_end <> lon0 /\
-    (@crossing_lat RNum false sg (lat0, lon0) (lat1, lon1) - lat0) * (lon_end - lon0)
+    (@crossing_lat RNum false false sg (lat0, lon0) (lat1, lon1) - lat0) * (lon_end - lon0)
     <> (lon_cross - lon0) * (lat1 - lat0).
 Proof.
   exists (-1)%Z, 0, 3, 1, (-3). cbn [Z.eqb Pos.eqb crossing_lat]. unfold pi. cbn [lit RNum]. split; lra.
@@ -740,13 +740,13 @@ Lemma Forall_skipn {A} (P : A -> Prop) n (l : list A) : Forall P l -> Forall P (
 Proof. revert n. induction l as [|a l IH]; intros [|n] H; auto; inversion H; subst; cbn [skipn]; auto. Qed.
 
 (* the two parts of a trajectory that crosses the antimeridian once *)
-Theorem crossing_parts clamp fixdl glat glon galt gtime (pts : list (R * R)) alts times states :
+Theorem crossing_parts clamp fixdl fixe glat glon galt gtime (pts : list (R * R)) alts times states :
   count_nonzero (@crossings RNum (map snd pts)) = 1%nat ->
   let cr := @crossings RNum (map snd pts) in
   let i := first_nonzero cr O in
   let sg := nth i cr 0%Z in
-  let latx := @crossing_lat RNum fixdl sg (nth i pts (0, 0)) (nth (S i) pts (0, 0)) in
-  @geometry RNum clamp fixdl glat glon galt gtime pts alts times states
+  let latx := @crossing_lat RNum fixdl fixe sg (nth i pts (0, 0)) (nth (S i) pts (0, 0)) in
+  @geometry RNum clamp fixdl fixe glat glon galt gtime pts alts times states
   = (1%Z, i,
      [ @part_run RNum clamp glat glon galt gtime (first_part pts i (latx, @exit_lon RNum sg))
          (option_map (fun a => first_part a i (nth i a 0)) alts)
@@ -768,17 +768,17 @@ Proof. reflexivity. Qed.
 
 (* containment, path order and chain shape for BOTH parts of the one-crossing case: the inserted points
    (crossing latitude, +-pi) only have to be admissible — with the clamp, -pi may be the lowest longitude line *)
-Theorem crossing_contained clamp fixdl glat glon galt gtime (pts : list (R * R)) alts times states :
+Theorem crossing_contained clamp fixdl fixe glat glon galt gtime (pts : list (R * R)) alts times states :
   incr glat -> incr glon ->
   count_nonzero (@crossings RNum (map snd pts)) = 1%nat ->
   let cr := @crossings RNum (map snd pts) in
   let i := first_nonzero cr O in
   let sg := nth i cr 0%Z in
-  let latx := @crossing_lat RNum fixdl sg (nth i pts (0, 0)) (nth (S i) pts (0, 0)) in
+  let latx := @crossing_lat RNum fixdl fixe sg (nth i pts (0, 0)) (nth (S i) pts (0, 0)) in
   Forall (pt_ok clamp glat glon) pts ->
   okx clamp glat latx -> okx clamp glon (@exit_lon RNum sg) -> okx clamp glon (@entry_lon RNum sg) ->
   exists r1 r2,
-    @geometry RNum clamp fixdl glat glon galt gtime pts alts times states = (1%Z, i, [r1; r2]) /\
+    @geometry RNum clamp fixdl fixe glat glon galt gtime pts alts times states = (1%Z, i, [r1; r2]) /\
     Forall (geom_ok glat glon) (snd r1) /\ Forall (geom_ok glat glon) (snd r2).
 Proof.
   intros Hg1 Hg2 H cr i sg latx Hp Hx He Hn.
@@ -794,7 +794,7 @@ Qed.
 Lemma crossing_lat_between sg (lat0 lon0 lat1 lon1 : R) :
   - @pi RNum <= lon0 <= @pi RNum -> - @pi RNum <= lon1 <= @pi RNum ->
   (sg = (-1)%Z -> lon1 - lon0 < - @pi RNum) -> (sg <> (-1)%Z -> @pi RNum < lon1 - lon0) ->
-  Rmin lat0 lat1 <= @crossing_lat RNum true sg (lat0, lon0) (lat1, lon1) <= Rmax lat0 lat1.
+  Rmin lat0 lat1 <= @crossing_lat RNum true false sg (lat0, lon0) (lat1, lon1) <= Rmax lat0 lat1.
 Proof.
   intros H0 H1 Hd Hu. unfold crossing_lat. cbn [add sub mul div opp eqb RNum two one].
   assert (Pp : 0 < @pi RNum) by (unfold pi; cbn [lit RNum]; lra).
@@ -834,13 +834,13 @@ Definition lengths_ok (r : @part_result RNum) : Prop :=
   (forall t, ti = Some t -> length t = length la) /\
   Forall (fun s => length s = length la) st.
 
-Theorem crossing_lengths_match clamp fixdl glat glon galt gtime (pts : list (R * R)) (alts times : list R)
+Theorem crossing_lengths_match clamp fixdl fixe glat glon galt gtime (pts : list (R * R)) (alts times : list R)
         (states : list (list R)) :
   count_nonzero (@crossings RNum (map snd pts)) = 1%nat ->
   length alts = length pts -> length times = length pts ->
   Forall (fun v => length v = length pts) states ->
   exists i r1 r2,
-    @geometry RNum clamp fixdl glat glon galt gtime pts (Some alts) (Some times) states = (1%Z, i, [r1; r2]) /\
+    @geometry RNum clamp fixdl fixe glat glon galt gtime pts (Some alts) (Some times) states = (1%Z, i, [r1; r2]) /\
     lengths_ok r1 /\ lengths_ok r2.
 Proof.
   intros H Ha Ht Hs. eexists. eexists. eexists. split; [apply crossing_parts; exact H|].
@@ -911,4 +911,70 @@ Proof.
   assert (Hj' : (S j < length var)%nat) by (rewrite Hl; lia).
   rewrite nth_repeat_by; [|rewrite removelast_length; exact (proj1 (Nat.lt_succ_lt_pred _ _) Hj')|exact Hj|exact Hr].
   apply nth_removelast. exact Hj'.
+Qed.
+
+(* ---------- FC04e: the clamped crossing latitude ---------- *)
+
+Lemma nmin_R (a b : R) : @nmin RNum a b = Rmin a b.
+Proof.
+  unfold nmin. cbn [ltb RNum]. unfold Rmin. destruct (Rltb b a) eqn:E; [apply Rltb_true in E|apply Rltb_false in E];
+    destruct (Rle_dec a b); lra.
+Qed.
+
+Lemma nmax_R (a b : R) : @nmax RNum a b = Rmax a b.
+Proof.
+  unfold nmax. cbn [ltb RNum]. unfold Rmax. destruct (Rltb a b) eqn:E; [apply Rltb_true in E|apply Rltb_false in E];
+    destruct (Rle_dec a b); lra.
+Qed.
+
+Lemma clamp_between_R (lo hi v : R) : @clamp_between RNum lo hi v = Rmin (Rmax v (Rmin lo hi)) (Rmax lo hi).
+Proof. unfold clamp_between. rewrite !nmin_R, !nmax_R. reflexivity. Qed.
+
+Lemma clamp_between_spec (lo hi v : R) : Rmin lo hi <= @clamp_between RNum lo hi v <= Rmax lo hi.
+Proof.
+  rewrite clamp_between_R. unfold Rmin, Rmax. repeat destruct (Rle_dec _ _); lra.
+Qed.
+
+Lemma clamp_between_id (lo hi v : R) : Rmin lo hi <= v <= Rmax lo hi -> @clamp_between RNum lo hi v = v.
+Proof.
+  rewrite clamp_between_R. unfold Rmin, Rmax. repeat destruct (Rle_dec _ _); lra.
+Qed.
+
+(* repaired: between the two end latitudes BY CONSTRUCTION, for any input whatsoever *)
+Lemma crossing_lat_clamped_between fixdl sg (lat0 lon0 lat1 lon1 : R) :
+  Rmin lat0 lat1 <= @crossing_lat RNum fixdl true sg (lat0, lon0) (lat1, lon1) <= Rmax lat0 lat1.
+Proof.
+  unfold crossing_lat. destruct fixdl; [|split; [apply Rmin_l|apply Rmax_l]].
+  match goal with |- context [@eqb RNum ?a ?b] => destruct (@eqb RNum a b) end;
+    [split; [apply Rmin_l|apply Rmax_l]|apply clamp_between_spec].
+Qed.
+
+(* for a real crossing the clamp changes nothing over the reals: the point stays on the segment's line *)
+Lemma crossing_lat_clamp_id sg (lat0 lon0 lat1 lon1 : R) :
+  - @pi RNum <= lon0 <= @pi RNum -> - @pi RNum <= lon1 <= @pi RNum ->
+  (sg = (-1)%Z -> lon1 - lon0 < - @pi RNum) -> (sg <> (-1)%Z -> @pi RNum < lon1 - lon0) ->
+  @crossing_lat RNum true true sg (lat0, lon0) (lat1, lon1) = @crossing_lat RNum true false sg (lat0, lon0) (lat1, lon1).
+Proof.
+  intros H0 H1 Hd Hu. pose proof (crossing_lat_between sg lat0 lon0 lat1 lon1 H0 H1 Hd Hu) as B.
+  unfold crossing_lat in *.
+  match goal with |- context [@eqb RNum ?a ?b] => destruct (@eqb RNum a b) end; [reflexivity|].
+  apply clamp_between_id. exact B.
+Qed.
+
+(* without the clamp betweenness is NOT a property of the formula itself (it rests on the crossing hypotheses and on
+   exact arithmetic; in binary64 it fails by one ulp at a pole: proofs/C05_Witness64.v) *)
+Lemma crossing_lat_before_fix_refuted :
+  exists sg lat0 lon0 lat1 lon1,
+    ~ (Rmin lat0 lat1 <= @crossing_lat RNum true false sg (lat0, lon0) (lat1, lon1) <= Rmax lat0 lat1).
+Proof.
+  exists (-1)%Z, 0, 0, 1, (-5). unfold crossing_lat. cbn [Z.eqb Pos.eqb add sub mul div opp eqb RNum two one].
+  assert (P : @pi RNum = 3141592653589793 / 1000000000000000) by (unfold pi; reflexivity).
+  destruct (Reqb (-5 + (1 + 1) * @pi RNum) 0) eqn:E.
+  - apply Reqb_true in E. rewrite P in E. lra.
+  - rewrite Rmin_left, Rmax_right by lra. rewrite P. intros [_ B].
+    assert (Hq : 1 < (3141592653589793 / 1000000000000000 - 0) /
+                     (-5 + (1 + 1) * (3141592653589793 / 1000000000000000) - 0)).
+    { apply (Rmult_lt_reg_r (-5 + (1 + 1) * (3141592653589793 / 1000000000000000) - 0)); [lra|].
+      unfold Rdiv at 2. rewrite Rmult_assoc, Rinv_l by lra. lra. }
+    nra.
 Qed.
